@@ -131,7 +131,7 @@ func (r *relativePathsResolver) absVolumeMount(a any) (any, error) {
 		if !ok {
 			return nil, errors.New(`invalid mount config for type "bind": field Source must not be empty`)
 		}
-		abs, err := r.maybeUnixPath(src.(string))
+		abs, err := r.maybeUnixPath(src)
 		if err != nil {
 			return nil, err
 		}
